@@ -82,7 +82,7 @@ class C18(Check):
             for b in sp:
                 for op in OPS:
                     out.append((op, a, b, "special-pair"))
-        nb = 1500 if tier == "quick" else 60000
+        nb = 1500 if tier == "quick" else 12000
         bounds = [lo, hi]
         widths = [1, 2, 8, 16, 31, 32, 33, 48, 62, 63, 64]
 
@@ -113,7 +113,7 @@ class C18(Check):
                 if inr(b):
                     out.append(("div", a, b, "div-rem-edge"))
                     out.append(("rem", a, b, "div-rem-edge"))
-        nr = 4000 if tier == "quick" else 400000
+        nr = 4000 if tier == "quick" else 300000
         for _ in range(nr):
             out.append((rng.choice(OPS), rnd(), rnd(), "random"))
         return out
